@@ -6,7 +6,7 @@ CRATE = "c18"
 COQ_DIR = "C18"
 COQ_DEPS = []
 PROFILES = ["debug"]
-CORR_IMPORT = "From Coq Require Import Floats.SpecFloat.\nFrom RlibV Require Import C18.Model C18.Corr.\nOpen Scope Z_scope."
+CORR_IMPORT = "From Coq Require Import Floats.SpecFloat Uint63.\nFrom RlibV Require Import C18.Model C18.Corr.\nOpen Scope Z_scope.\nOpen Scope uint63_scope."
 CASE_TYPE = "case"
 AUDIT_IMPORT = ("From Coq Require Import ZArith Reals Bool Floats.SpecFloat.\n"
                 "From Flocq Require Import Core.Zaux Core.Raux Core.Defs Core.Generic_fmt Core.FLT Core.Round_NE "
@@ -15,7 +15,7 @@ AUDIT_IMPORT = ("From Coq Require Import ZArith Reals Bool Floats.SpecFloat.\n"
 EXPLAIN = "explain"
 AXIOM_ALLOW = []
 THEOREMS = []
-SHARD = 1200
+SHARD = 1250
 SEARCH_MAX = 20000
 RULE = ("boundary set x boundary set of binary64 bit patterns, exhaustively (signed zeros, min/mid/max subnormals, "
         "MIN_POSITIVE, powers of two and their +-1ulp neighbours, 1-2^-53, 1+2^-52, 0.1, 1/3, huge/tiny exponents, "
@@ -47,19 +47,31 @@ def harness_line(c):
     return "%s %s %s" % (c["op"], c["a"], c["b"])
 
 
+def w(v):
+    v = int(v)
+    return "(W %d %d)" % (v >> 32, v & 0xFFFFFFFF)
+
+
+def r(se, m):
+    m = int(m)
+    return "(R %s %d %d)" % (se, m >> 32, m & 0xFFFFFFFF)
+
+
 def coq_term(c, obs, profile):
     a, b = int(c["a"], 16), int(c["b"], 16)
     if obs == "P":
         # no operation of the crate panics; make the case fail both checks
-        return "(Case %s %d %d (mkObs (0,1) (0,1) (0,1) (0,1) (0,1) (0,1) (0,1) (0,1) (0,1) 1 1 1 1 1 1 true true true true true 9 (0,1) (0,1) (0,1)))" % (OPS[c["op"]], a, b)
+        bad = "(R 0 0 1)"
+        return "(Case %s %s %s (mkObs %s 1 1 1 1 1 1 true true true true true 9 %s))" % (
+            OPS[c["op"]], w(a), w(b), " ".join([bad] * 9), " ".join([bad] * 3))
     t = obs.split()
-    raws = ["(%s,%s)" % (t[2 * i], t[2 * i + 1]) for i in range(9)]
-    f64s = t[18:24]
+    raws = [r(t[2 * i], t[2 * i + 1]) for i in range(9)]
+    f64s = [w(v) for v in t[18:24]]
     bools = ["true" if v == "1" else "false" for v in t[24:29]]
     pc = t[29]
-    tail = ["(%s,%s)" % (t[30 + 2 * i], t[31 + 2 * i]) for i in range(3)]
-    return "(Case %s %d %d (mkObs %s %s %s %s %s))" % (
-        OPS[c["op"]], a, b, " ".join(raws), " ".join(f64s), " ".join(bools), pc, " ".join(tail))
+    tail = [r(t[30 + 2 * i], t[31 + 2 * i]) for i in range(3)]
+    return "(Case %s %s %s (mkObs %s %s %s %s %s))" % (
+        OPS[c["op"]], w(a), w(b), " ".join(raws), " ".join(f64s), " ".join(bools), pc, " ".join(tail))
 
 
 def fclass(h):
